@@ -108,6 +108,26 @@ def run(ctx):
             if bad >= 3:
                 break
     ctx.ties.append({"name": "sched-mt (oracle only)", "cases": len(runs), "disagreements": bad})
+    # units handed over with enqueue into an arena that has been used before are never lost (shares the driver mode with C02's enqueue-liveness runs)
+    mexe, err = ctx.build_driver("drv_monitor", libs=[lib])
+    if err:
+        return ctx.broken("drv_monitor build", err)
+    ebad = 0
+    eruns = [["enqafter", A, R, k] for (A, R, k) in ([(1, 1, 0), (2, 1, 1), (1, 1, 2), (4, 1, 0), (3, 1, 0), (3, 0, 1)] * ctx.scale(1, 3))]
+    for args in eruns:
+        rc, lines, err = ctx.run_driver(mexe, args, timeout=300)
+        ctx.count(("sched-enqafter", tuple(args)), True, "sched enqafter")
+        t = (lines or ["no output"])[-1].split()
+        if rc != 0 or len(t) < 4 or t[1::2] != ["0", "0"]:
+            ebad += 1
+            ctx.add(Finding("violation", "sched-enqueue-after-use-lost", "task_arena(%d,%d) used before (%s), then task_arena::enqueue from outside with nobody joining the arena: %s rc=%s "
+                            "(NOTRUN = the enqueued unit was not carried out within 6 s; TWICE = carried out more than once)" % (
+                                args[1], args[2], ["a thread spawned there and idled in task_group::wait for 250 ms", "a parallel_for ran there", "an earlier enqueue ran there"][args[3]], " ".join(t), rc),
+                            {"tie": "sched-enqafter", "args": args}))
+            break
+    ctx.rules.append("sched-enqafter (oracle only): arenas (1,1) workerless / (2,1) / (4,1) / (3,1) / (3,0) (never all slots reserved: a worker must be able to join) that were used before (spawn + idle wait, parallel_for, earlier enqueue), three rounds each: "
+                     "a fire-and-forget enqueue with nobody joining the arena is carried out exactly once within 6 s")
+    ctx.ties.append({"name": "sched-enqafter (oracle only)", "cases": len(eruns), "disagreements": ebad})
 
 
 def replay(ctx, rep):
@@ -117,6 +137,9 @@ def replay(ctx, rep):
         diff_tie(ctx, "deque-gate", exe, ["gate"], "deque", [rep["case"]], oracle=oracle, describe=describe)
         for f in ctx.findings:
             print(f.kind, f.key, f.detail)
+    elif rep.get("tie") == "sched-enqafter":
+        mexe, err = ctx.build_driver("drv_monitor", libs=[lib])
+        print(ctx.run_driver(mexe, rep["args"], timeout=300))
     else:
         sexe, err = ctx.build_driver("drv_sched", libs=[lib])
         print(ctx.run_driver(sexe, rep["args"], timeout=300))
